@@ -11,13 +11,13 @@ pub static DEF: CheckDef = CheckDef {
     id: "C14",
     run,
     replay,
-    rule: "(a) exhaustive walk: for all 16 STAT enable masks x LYC in {0, 1, 77, 143, 144, 153, 200}, two whole frames (plus the power-on vertical blank) are delivered 4 clocks at a time, and after every batch LY, the STAT mode and coincidence bits, the VBlank request and the STAT request of that batch are compared with the closed-form schedule (models::lcd): this pins every event to its exact 4-clock slot. (b) proptest histories of up to 12 operations over {write STAT enable mask, write LYC, advance(n)} with n a multiple of 4 from 4 to 200000 clocks (up to ~6 frames in total, biased to line, mode and frame boundaries), on the VideoState device and through the bus (0xFF41/0xFF44/0xFF45, IF bits 0 and 1); same observations after every operation. Metamorphic: every advance is also delivered split at generated cut points to a second instance, which must observe exactly the same. Non-trivial = history whose advances cross 143->144, 153->0, an enabled mode entry or an LY=LYC hit; distinct by hash of the history.",
+    rule: "(a) exhaustive walk: for all 16 STAT enable masks x LYC in {0, 1, 77, 143, 144, 153, 200}, two whole frames (plus the power-on vertical blank) are delivered 4 clocks at a time, and after every batch LY, the STAT mode and coincidence bits, the VBlank request and the STAT request of that batch are compared with the closed-form schedule (models::lcd): this pins every event to its exact 4-clock slot. (b) proptest histories of up to 12 operations over {write STAT enable mask, write LYC, advance(n)} with n a multiple of 4 from 4 to 200000 clocks (up to ~6 frames in total, biased to line, mode and frame boundaries), on the VideoState device and through the bus (0xFF41/0xFF44/0xFF45, IF bits 0 and 1); same observations after every operation. Metamorphic: every advance is also delivered split at generated cut points to a second instance, which must observe exactly the same. Non-trivial = history whose advances cross 143->144, 153->0, an enabled mode entry or an LY=LYC hit; distinct by hash of the history. Program layer (the glue between the CPU loop and the device): generated structured programs (C04's generator with the device fragments weighted up: STAT/LYC writes, EI;HALT woken by a STAT source, OAM DMA running in the background) run on a whole core in three stepping modes (interpreter instruction-stepped, interpreter block-stepped, jit block-stepped); the reference machine says which bus writes each step made, how many clocks it is worth and which request was acknowledged, and the independent model fed with exactly that must agree with LY, STAT bits 0-2, the STAT enable bits and IF bits 0 and 1 (a batch with a cause must request, a batch with none must not; a STAT/LYC write while LY = LYC leaves bit 1 open; the LCD is not judged after a program clears LCDC bit 7) after every step.",
     assumptions: &[
         "models::lcd (154 lines x 456 clocks, 80/188/188 split as the property states, power-on at the first clock of line 144)",
         "a STAT request caused by writing STAT or LYC while LY = LYC is neither required nor forbidden; STAT-line blocking between sources is not modelled (a batch containing at least one cause must request, a batch with none must not)",
         "batches are multiples of 4 clocks (every caller guarantees it); LCDC = 0x91 (LCD on)",
     ],
-    required_classes: &["cross-143-144", "cross-153-0", "enabled-mode-entry", "lyc-hit", "split-advance-with-event", "level-device", "level-bus", "walk"],
+    required_classes: &["cross-143-144", "cross-153-0", "enabled-mode-entry", "lyc-hit", "split-advance-with-event", "level-device", "level-bus", "walk", "program-vblank", "program-stat-request", "program-dma-started", "program-halted-or-stopped-steps", "program-mode-block-jit"],
     exhaustive: false,
 };
 
@@ -341,9 +341,14 @@ fn run(rec: &mut Rec) {
         });
     }
     rec.sample(|| case_json(&Case { level: 1, ops: vec![Op::Stat(0x40), Op::Lyc(0), Op::Adv(4560, vec![0x8000])] }));
+    // program layer: the LCD as a whole core drives it
+    crate::sysobs::program_layer(rec, "program-lcd", &[crate::sysobs::Dev::Lcd], crate::prog::Focus { lcd: 3, dma: 1, irq: 1, ..Default::default() }, rec.ctx.tier.pick(60u32, 1500), rec.ctx.tier.pick(14000u32, 60000), 1, program_nontrivial);
 }
 
 fn replay(case: &Value, rec: &mut Rec) {
+    if crate::sysobs::replay_program(case, rec, &[crate::sysobs::Dev::Lcd]) {
+        return;
+    }
     let rom = std_rom();
     let mut ms = Machines { b1: BusDut { m: i::M::new(&rom) }, b2: BusDut { m: i::M::new(&rom) } };
     if case.get("kind").and_then(|k| k.as_str()) == Some("lcd-walk") {
@@ -367,4 +372,8 @@ fn replay(case: &Value, rec: &mut Rec) {
     if let Err(f) = exec(&mut ms, &c, rec, true) {
         rec.violation(&f.sig, case_json(&c), f.detail);
     }
+}
+
+fn program_nontrivial(o: &crate::sysobs::RunOutcome) -> bool {
+    o.stats.stat_requests > 0 || o.stats.vblanks > 0
 }
